@@ -22,15 +22,15 @@ impl tracing_core::Callsite for SCs {
     fn metadata(&self) -> &Metadata<'_> { &S_META }
 }
 
-fn ld(a: &core::sync::atomic::AtomicUsize) -> usize { a.load(Ordering::Relaxed) }
+pub fn ld(a: &core::sync::atomic::AtomicUsize) -> usize { a.load(Ordering::Relaxed) }
 
 /// a span owned by collector A, created while B is the thread's default
-fn mk(da: &tracing_core::Dispatch) -> Span {
+pub fn mk(da: &tracing_core::Dispatch) -> Span {
     let vs = S_META.fields().value_set(&[]);
     Span::new_with(&S_META, &vs, da)
 }
 
-fn setup() -> (tracing_core::Dispatch, dispatch::DefaultGuard) {
+pub fn setup() -> (tracing_core::Dispatch, dispatch::DefaultGuard) {
     let c: &'static dyn tracing_core::Callsite = &S_CS;
     kani::assume(c.metadata().name().len() == 1);
     let da = v::dispatch_unregistered(&A);
@@ -39,12 +39,23 @@ fn setup() -> (tracing_core::Dispatch, dispatch::DefaultGuard) {
     (da, g)
 }
 
-fn quiescent(news: usize, clones: usize, closes: usize) {
+pub fn quiescent(news: usize, clones: usize, closes: usize) {
     assert!(ld(&A.new_spans) == news);
     assert!(ld(&A.clones) == clones);
     assert!(ld(&A.closes) == closes);
     assert!(ld(&A.enters) == ld(&A.exits));
     // nothing ever goes to the foreign default
+    assert!(B.total_calls() == 0);
+}
+
+/// ledger so far: exactly these many calls of each kind reached the span's own collector, none the foreign default
+pub fn ledger(clones: usize, closes: usize, enters: usize, exits: usize, records: usize) {
+    assert!(ld(&A.new_spans) == 1);
+    assert!(ld(&A.clones) == clones);
+    assert!(ld(&A.closes) == closes);
+    assert!(ld(&A.enters) == enters);
+    assert!(ld(&A.exits) == exits);
+    assert!(ld(&A.records) == records);
     assert!(B.total_calls() == 0);
 }
 
